@@ -55,6 +55,10 @@ func c01Units(tier string) []Unit {
 		b4.Provides, b4.Rejected = 4, 2
 		add("rejected-by-cycle"+tag, cfg, prefixChild, alpha{scopes: []int{0, 1}, ctors: []*uFunc{pA, pB, rAB, rAoB}, export: true,
 			invokes: []*uFunc{iA, iB}}, d, b4)
+		// optional consumers of exported constructors whose own dependencies are
+		// private to the exporting scope: available means delivered, never zero
+		add("optional-over-exported"+tag, cfg, prefixChild, alpha{scopes: []int{0, 1}, ctors: []*uFunc{pA, pB, pCb}, export: true,
+			invokes: []*uFunc{iBo, iCo, iNest}}, d, b)
 		if !q || !def {
 			add("chain3"+tag, cfg, prefixChain, alpha{scopes: []int{0, 1, 2}, ctors: []*uFunc{pA, pB}, export: true,
 				decos: []*uFunc{dA}, invokes: []*uFunc{iA, iB}}, d, b)
